@@ -116,6 +116,8 @@ func init() {
 			pkgs := c.unitPkgs("u")
 			c.runUnits("UNIT", pkgs, c.fileFilter("render3d/light.go", "render3d/focus_point.go", "render3d/material.go"))
 			c.floor("UNIT", 12)
+			c.runArgSwap("ARGSWAP", pkgs, baseIn("light.go", "focus_point.go", "material.go"), nil)
+			c.floor("ARGSWAP", 40)
 		},
 		SelfTest: []Mutation{
 			{Name: "cylinder shaft sampled at radius 1 (defect F12)", File: "render3d/light.go",
